@@ -1,6 +1,7 @@
 package main
 
 import (
+	"sync"
 	"math/rand/v2"
 	"net/http"
 	"net/http/httptest"
@@ -21,6 +22,7 @@ func init() {
 		Parts: []Part{
 			{Name: "set", Shards: 8, Fn: c13Set},
 			{Name: "http", Shards: 8, Fn: c13HTTP},
+			{Name: "floodconc", Race: true, Shards: 4, Fn: c13FloodConc},
 		},
 	})
 }
@@ -229,4 +231,93 @@ func c13HTTP(c *Ctx) {
 		}
 		return httpBucket{tl, n, "src"}
 	})
+}
+
+// c13FloodConc: rejected requests arriving concurrently from one source must still cost nothing
+// (the debit-all / roll-back-all sequence has to be atomic per source).
+func c13FloodConc(c *Ctx) {
+	c.Cases("floodconc", c.N(30, 600), func(i int, r *rand.Rand) {
+		short := rateSpec{time.Second, int64(1 + r.IntN(3)), int64(1 + r.IntN(3))}
+		long := rateSpec{pick(r, []time.Duration{time.Minute, time.Hour}), int64(50 + r.IntN(100)), int64(50 + r.IntN(100))}
+		rs := []rateSpec{short, long}
+		freeze(baseTime.Add(time.Duration(r.Int64N(1e9))))
+		defer unfreeze()
+		mk := func() (*ratelimit.TokenLimiter, *int64) {
+			var mu sync.Mutex
+			n := new(int64)
+			tl, err := ratelimit.New(http.HandlerFunc(func(http.ResponseWriter, *http.Request) {
+				mu.Lock()
+				*n++
+				mu.Unlock()
+			}), hdrExtractor, mkRateSet(rs))
+			if err != nil {
+				panic(err)
+			}
+			return tl, n
+		}
+		A, _ := mk()
+		B, _ := mk()
+		serve := func(tl *ratelimit.TokenLimiter, amt int64) int {
+			req := httptest.NewRequest("GET", "http://x.test/", nil)
+			req.Header.Set("X-Src", "same")
+			req.Header.Set("X-Amt", strconv.FormatInt(amt, 10))
+			rec := httptest.NewRecorder()
+			tl.ServeHTTP(rec, req)
+			return rec.Code
+		}
+		// exhaust the short-period bucket on both twins
+		for k := int64(0); k < short.Burst; k++ {
+			serve(A, 1)
+			serve(B, 1)
+		}
+		G, per := 8, 200+r.IntN(c.N(300, 1500))
+		var wg sync.WaitGroup
+		var admitted sync.Map
+		start := make(chan struct{})
+		for g := 0; g < G; g++ {
+			wg.Add(1)
+			go func(g int) {
+				defer wg.Done()
+				<-start
+				for k := 0; k < per; k++ {
+					if serve(B, 1) != http.StatusTooManyRequests {
+						admitted.Store(g*100000+k, true)
+					}
+				}
+			}(g)
+		}
+		close(start)
+		wg.Wait()
+		c.Eval()
+		c.Count("concurrent_rejected_requests", int64(G*per))
+		bad := 0
+		admitted.Range(func(_, _ any) bool { bad++; return true })
+		if bad > 0 {
+			c.Violation("floodconc/admitted", sfmt("rates %v: %d of %d concurrent requests were admitted although the 1s bucket was empty", rs, bad, G*per), nil)
+			return
+		}
+		// let the short bucket refill completely, then both twins must drain the same number of single tokens
+		advance(time.Duration(short.Burst)*short.Period + time.Second)
+		drain := func(tl *ratelimit.TokenLimiter) int64 {
+			var k int64
+			for k < long.Burst+5 && serve(tl, 1) == 200 {
+				k++
+				advance(short.Period/time.Duration(short.Average) + time.Millisecond) // one short-rate token per step: the long budget is what is measured
+			}
+			return k
+		}
+		ta := now()
+		da := drain(A)
+		_ = ta
+		// B must see the same clock schedule: re-freeze is not possible, so drain B first in odd cases
+		db := drain(B)
+		// A drained first advanced the clock; B drains later and may only have MORE budget (refill), never less
+		if db < da-int64(0) {
+			c.Violation("floodconc/rejected-debited", sfmt("rates %v: after %d concurrent rejected requests the long-period budget of the flooded limiter allows %d more requests, the unflooded twin %d", rs, G*per, db, da), nil)
+			return
+		}
+		c.Nontrivial(sfmt("floodconc/%v/%d/%d", rs, per, i))
+		c.Count("floodconc_nontrivial", 1)
+	})
+	c.Require("floodconc_nontrivial", 2)
 }
